@@ -458,9 +458,21 @@ public:
 
         // Copy handler into std::function BEFORE forwarding into Record.
         // std::forward<F> may move from handler, so the copy must happen first.
-        std::function<void()> storedFn(handler);
-        _periodicTimers.emplace(id, PeriodicTimer{id, interval, deadline, false, std::move(storedFn)});
-        _records.emplace(id, Record{deadline, Handler{std::forward<F>(handler)}, false});
+        // The stored function checks a per-timer cancelled flag first: a firing that
+        // was already collected (queued behind a slow handler) when cancel() returned
+        // true must not start any more.
+        auto cancelled = std::make_shared<std::atomic<bool>>(false);
+        std::function<void()> userFn(std::forward<F>(handler));
+        std::function<void()> storedFn = [cancelled, userFn = std::move(userFn)]()
+        {
+          if (!cancelled->load(std::memory_order_acquire))
+          {
+            userFn();
+          }
+        };
+        _records.emplace(id, Record{deadline, Handler{storedFn}, false});
+        _periodicTimers.emplace(
+          id, PeriodicTimer{id, interval, deadline, false, std::move(storedFn), std::move(cancelled)});
         _heap.emplace_back(HeapItem{deadline, id});
         siftUp(_heap.size() - 1);
 
@@ -523,6 +535,12 @@ public:
               _stats.timersCanceled.fetch_add(1, std::memory_order_relaxed);
             }
           }
+        }
+
+        // Stop firings that were already collected but have not started yet
+        if (periodicIt->second.cancelled)
+        {
+          periodicIt->second.cancelled->store(true, std::memory_order_release);
         }
 
         // Erase the entry to prevent unbounded accumulation
@@ -932,6 +950,7 @@ private:
     TimePoint nextExecution;
     bool canceled{false};
     std::function<void()> handler; ///< Copyable handler for rescheduling
+    std::shared_ptr<std::atomic<bool>> cancelled; ///< Set by cancel(); checked before each firing
   };
 
   static bool less(const HeapItem &a, const HeapItem &b)
